@@ -103,4 +103,320 @@ theorem lex_ign (ig : List Char) (n : Nat) (h : Ign ig n) (rest : List Char) (li
     simp only [Nat.zero_add] at hs
     simp [lexAux, hs]
 
+/-! ## character classes -/
+
+theorem digit_not_idStart (c : Char) (h : c.isDigit = true) : isIdStart c = false := by
+  simp only [Char.isDigit, isIdStart, Char.isAlpha, Char.isUpper, Char.isLower, Bool.and_eq_true, decide_eq_true_eq,
+    Bool.or_eq_false_iff, Bool.and_eq_false_iff, decide_eq_false_iff_not, beq_eq_false_iff_ne, ne_eq] at *
+  have h2 := h.2
+  refine ⟨⟨?_, ?_⟩, ?_⟩
+  · first
+      | (left; intro h3; exact absurd (UInt32.le_trans h3 h2) (by decide))
+      | (rintro ⟨h3, _⟩; exact absurd (UInt32.le_trans h3 h2) (by decide))
+  · first
+      | (left; intro h3; exact absurd (UInt32.le_trans h3 h2) (by decide))
+      | (rintro ⟨h3, _⟩; exact absurd (UInt32.le_trans h3 h2) (by decide))
+  · rintro rfl; revert h2; decide
+
+theorem digit_ne (c : Char) (h : c.isDigit = true) :
+    c ≠ ' ' ∧ c ≠ '\t' ∧ c ≠ '\n' ∧ c ≠ '/' ∧ c ≠ '"' := by
+  refine ⟨?_, ?_, ?_, ?_, ?_⟩ <;> (rintro rfl; revert h; decide)
+
+theorem idStart_ne (c : Char) (h : isIdStart c = true) :
+    c ≠ ' ' ∧ c ≠ '\t' ∧ c ≠ '\n' ∧ c ≠ '/' ∧ c ≠ '"' := by
+  refine ⟨?_, ?_, ?_, ?_, ?_⟩ <;> (rintro rfl; revert h; decide)
+
+def symChars : List Char := "{}[](),:;@|=.".toList
+
+theorem sym_facts : ∀ c ∈ symChars,
+    c ≠ ' ' ∧ c ≠ '\t' ∧ c ≠ '\n' ∧ c ≠ '/' ∧ c ≠ '"' ∧ isIdStart c = false ∧ c.isDigit = false ∧
+    c ≠ '+' ∧ c ≠ '-' ∧ isSym c = true := by decide
+
+/-! ## token texts -/
+
+theorem lex_ident (c : Char) (a rest : List Char) (hc : isIdStart c = true) (ha : a.all isIdChar = true)
+    (hr : rest.head?.all (fun c => !isIdChar c) = true) (f line : Nat) (acc : List LTok) :
+    lexAux (f + 1) (c :: (a ++ rest)) line acc =
+      lexAux f rest line (⟨.ident (String.ofList (c :: a)), line⟩ :: acc) := by
+  obtain ⟨h1, h2, h3, h4, h5⟩ := idStart_ne c hc
+  have htw := takeWhile_append isIdChar a rest ha hr
+  simp [lexAux, h1, h2, h3, h4, h5, hc, htw]
+
+theorem lex_sym (c : Char) (rest : List Char) (hc : c ∈ symChars)
+    (hr : c = '.' → rest.head?.all (fun d => !d.isDigit) = true) (f line : Nat) (acc : List LTok) :
+    lexAux (f + 1) (c :: rest) line acc = lexAux f rest line (⟨.sym c, line⟩ :: acc) := by
+  obtain ⟨h1, h2, h3, h4, h5, h6, h7, h8, h9, h10⟩ := sym_facts c hc
+  by_cases hd : c = '.'
+  · subst hd
+    have hr' := hr rfl
+    cases rest with
+    | nil => simp [lexAux, isIdStart]
+    | cons d r =>
+      simp at hr'
+      simp [lexAux, isIdStart, hr']
+  · simp [lexAux, h1, h2, h3, h4, h5, h6, h7, h8, h9, h10, hd]
+
+/-- the inside of a string literal: no bare quote or line feed, backslashes in pairs with what follows -/
+def strOk : List Char → Bool
+  | [] => true
+  | '"' :: _ => false
+  | '\n' :: _ => false
+  | '\\' :: c :: cs => c != '\n' && strOk cs
+  | ['\\'] => false
+  | _ :: cs => strOk cs
+
+theorem strBody_print (body rest : List Char) (h : strOk body = true) :
+    strBody (body ++ '"' :: rest) = some (body, rest) := by
+  fun_induction strOk body with
+  | case1 => simp [strBody]
+  | case2 => simp at h
+  | case3 => simp at h
+  | case4 c cs ih =>
+    simp only [Bool.and_eq_true, bne_iff_ne, ne_eq] at h
+    simp [strBody, h.1, ih h.2]
+  | case5 => simp at h
+  | case6 c cs h1 h2 h3 h4 ih =>
+    have hb : c ≠ '\\' := by
+      intro e
+      cases cs with
+      | nil => exact h4 e rfl
+      | cons d ds => exact h3 d ds e rfl
+    have hq : c ≠ '"' := fun e => h1 e
+    have hn : c ≠ '\n' := fun e => h2 e
+    rw [List.cons_append, strBody]
+    · rw [ih h]; rfl
+    all_goals (intros; simp_all)
+
+theorem lex_str (body rest : List Char) (h : strOk body = true) (f line : Nat) (acc : List LTok) :
+    lexAux (f + 1) ('"' :: (body ++ '"' :: rest)) line acc =
+      lexAux f rest line (⟨.str (String.ofList body), line⟩ :: acc) := by
+  simp [lexAux, strBody_print body rest h]
+
+/-! ## numbers: digits, an optional fraction, an optional exponent -/
+
+inductive Frac : List Char → Prop
+  | none : Frac []
+  | some (d : List Char) : d.all Char.isDigit = true → Frac ('.' :: d)
+
+inductive Expo : List Char → Prop
+  | none : Expo []
+  | mk (e : Char) (sg d : List Char) : (e = 'e' ∨ e = 'E') → (sg = [] ∨ sg = ['+'] ∨ sg = ['-']) →
+      d ≠ [] → d.all Char.isDigit = true → Expo (e :: (sg ++ d))
+
+/-- what may follow a number: nothing, or a character that cannot continue it -/
+def numSep (rest : List Char) : Bool :=
+  rest.head?.all fun c => !c.isDigit && c != '.' && c != 'e' && c != 'E'
+
+theorem numSep_head (rest : List Char) (h : numSep rest = true) :
+    rest.head?.all (fun c => !c.isDigit) = true := by
+  cases rest with
+  | nil => rfl
+  | cons c r => simp [numSep] at h ⊢; exact h.1.1.1
+
+/-- the exponent part, as `numBody` reads it -/
+def expPart (r2 : List Char) : List Char × List Char :=
+  match r2 with
+  | e :: r =>
+    if e == 'e' || e == 'E' then
+      let (sg, r') : List Char × List Char := match r with
+        | '+' :: t => (['+'], t)
+        | '-' :: t => (['-'], t)
+        | _ => ([], r)
+      let (d, r'') := takeWhile Char.isDigit r'
+      if d.isEmpty then ([], r2) else (e :: sg ++ d, r'')
+    else ([], r2)
+  | [] => ([], r2)
+
+theorem expPart_print (ep rest : List Char) (he : Expo ep) (hs : numSep rest = true) :
+    expPart (ep ++ rest) = (ep, rest) := by
+  cases he with
+  | none =>
+    cases rest with
+    | nil => rfl
+    | cons c r =>
+      simp [numSep] at hs
+      simp [expPart, hs.1.2, hs.2]
+  | mk e sg d hE hsg hd hdig =>
+    have htw := takeWhile_append Char.isDigit d rest hdig (numSep_head rest hs)
+    obtain ⟨d0, ds, rfl⟩ : ∃ d0 ds, d = d0 :: ds := by
+      cases d with
+      | nil => exact absurd rfl hd
+      | cons a b => exact ⟨a, b, rfl⟩
+    have hd0 : d0.isDigit = true := by simp at hdig; exact hdig.1
+    have hp : d0 ≠ '+' := by rintro rfl; revert hd0; decide
+    have hm : d0 ≠ '-' := by rintro rfl; revert hd0; decide
+    simp only [List.cons_append] at htw
+    rcases hE with rfl | rfl <;> rcases hsg with rfl | rfl | rfl <;>
+      simp [expPart, htw, hp, hm]
+
+/-- the fraction part, as `numBody` reads it -/
+def fracPart (ip r1 : List Char) : List Char × List Char :=
+  match r1 with
+  | '.' :: r =>
+    let (d, r') := takeWhile Char.isDigit r
+    if ip.isEmpty && d.isEmpty then ([], r1) else ('.' :: d, r')
+  | _ => ([], r1)
+
+theorem numBody_eq (cs : List Char) : numBody cs =
+    (let (ip, r1) := takeWhile Char.isDigit cs
+     let (fp, r2) := fracPart ip r1
+     if ip.isEmpty && fp.isEmpty then none
+     else
+       let (ep, r3) := expPart r2
+       some (ip ++ fp ++ ep, r3)) := rfl
+
+theorem fracPart_print (ip fp tail : List Char) (hne : ip ≠ []) (hf : Frac fp)
+    (ht : fp = [] → tail.head?.all (fun c => c != '.') = true)
+    (hd : fp ≠ [] → tail.head?.all (fun c => !c.isDigit) = true) :
+    fracPart ip (fp ++ tail) = (fp, tail) := by
+  cases hf with
+  | none =>
+    have := ht rfl
+    cases tail with
+    | nil => rfl
+    | cons c r =>
+      simp at this
+      simp [fracPart, this]
+  | some d hdig =>
+    have htw := takeWhile_append Char.isDigit d tail hdig (hd (by simp))
+    cases ip with
+    | nil => exact absurd rfl hne
+    | cons a b => simp [fracPart, htw]
+
+theorem numBody_print (ip fp ep rest : List Char) (hne : ip ≠ []) (hip : ip.all Char.isDigit = true)
+    (hf : Frac fp) (he : Expo ep) (hs : numSep rest = true) :
+    numBody (ip ++ (fp ++ (ep ++ rest))) = some (ip ++ fp ++ ep, rest) := by
+  -- what follows each part does not continue it
+  have hEp : (ep ++ rest).head?.all (fun c => !c.isDigit && c != '.') = true := by
+    cases he with
+    | none =>
+      cases rest with
+      | nil => rfl
+      | cons c r => simp [numSep] at hs; simp [hs.1.1.1, hs.1.1.2]
+    | mk e sg d hE _ _ _ => rcases hE with rfl | rfl <;> simp <;> decide
+  have hFp : (fp ++ (ep ++ rest)).head?.all (fun c => !c.isDigit) = true := by
+    cases hf with
+    | none =>
+      cases h : ep ++ rest with
+      | nil => rfl
+      | cons c r => rw [h] at hEp; simp at hEp; simp [hEp.1]
+    | some d _ => simp
+  have h1 := takeWhile_append Char.isDigit ip (fp ++ (ep ++ rest)) hip hFp
+  have h2 := fracPart_print ip fp (ep ++ rest) hne hf
+    (fun _ => by
+      cases h : ep ++ rest with
+      | nil => rfl
+      | cons c r => rw [h] at hEp; simp at hEp; simp [hEp.2])
+    (fun _ => by
+      cases h : ep ++ rest with
+      | nil => rfl
+      | cons c r => rw [h] at hEp; simp at hEp; simp [hEp.1])
+  have h3 := expPart_print ep rest he hs
+  rw [numBody_eq]
+  simp only [h1, h2, h3]
+  cases ip with
+  | nil => exact absurd rfl hne
+  | cons a b => simp
+
+theorem lex_num (c : Char) (ip' fp ep rest : List Char) (hc : c.isDigit = true)
+    (hip : ip'.all Char.isDigit = true) (hf : Frac fp) (he : Expo ep) (hs : numSep rest = true)
+    (f line : Nat) (acc : List LTok) :
+    lexAux (f + 1) (c :: (ip' ++ (fp ++ (ep ++ rest)))) line acc =
+      lexAux f rest line (⟨.num (String.ofList ((c :: ip') ++ fp ++ ep)), line⟩ :: acc) := by
+  obtain ⟨h1, h2, h3, h4, h5⟩ := digit_ne c hc
+  have h6 := digit_not_idStart c hc
+  have hnb := numBody_print (c :: ip') fp ep rest (by simp) (by simp [hc, hip]) hf he hs
+  simp only [List.cons_append] at hnb
+  simp [lexAux, h1, h2, h3, h4, h5, h6, hc, hnb]
+
+theorem lex_snum (sg : Char) (ip fp ep rest : List Char) (hsg : sg = '+' ∨ sg = '-') (hne : ip ≠ [])
+    (hip : ip.all Char.isDigit = true) (hf : Frac fp) (he : Expo ep) (hs : numSep rest = true)
+    (f line : Nat) (acc : List LTok) :
+    lexAux (f + 1) (sg :: (ip ++ (fp ++ (ep ++ rest)))) line acc =
+      lexAux f rest line (⟨.num (String.ofList (sg :: (ip ++ fp ++ ep))), line⟩ :: acc) := by
+  have hnb := numBody_print ip fp ep rest hne hip hf he hs
+  rcases hsg with rfl | rfl <;> simp [lexAux, isIdStart, hnb]
+
+/-! ## printing and the inverse -/
+
+/-- the text of one token -/
+inductive TokText : Tok → List Char → Prop
+  | ident (c : Char) (a : List Char) : isIdStart c = true → a.all isIdChar = true →
+      TokText (.ident (String.ofList (c :: a))) (c :: a)
+  | num (c : Char) (ip' fp ep : List Char) : c.isDigit = true → ip'.all Char.isDigit = true → Frac fp → Expo ep →
+      TokText (.num (String.ofList ((c :: ip') ++ fp ++ ep))) (c :: (ip' ++ (fp ++ ep)))
+  | snum (sg : Char) (ip fp ep : List Char) : (sg = '+' ∨ sg = '-') → ip ≠ [] → ip.all Char.isDigit = true →
+      Frac fp → Expo ep → TokText (.num (String.ofList (sg :: (ip ++ fp ++ ep)))) (sg :: (ip ++ (fp ++ ep)))
+  | str (body : List Char) : strOk body = true → TokText (.str (String.ofList body)) ('"' :: (body ++ ['"']))
+  | sym (c : Char) : c ∈ symChars → TokText (.sym c) [c]
+
+/-- what may follow the text of a token, so that the token ends where its text ends -/
+def TokSep : Tok → List Char → Prop
+  | .ident _, rest => rest.head?.all (fun c => !isIdChar c) = true
+  | .num _, rest => numSep rest = true
+  | .str _, _ => True
+  | .sym c, rest => c = '.' → rest.head?.all (fun d => !d.isDigit) = true
+
+theorem TokText.length_pos {t : Tok} {txt : List Char} (h : TokText t txt) : 1 ≤ txt.length := by
+  cases h <;> simp
+
+theorem lex_tok (t : Tok) (txt : List Char) (h : TokText t txt) (rest : List Char) (hs : TokSep t rest)
+    (f line : Nat) (acc : List LTok) :
+    lexAux (f + 1) (txt ++ rest) line acc = lexAux f rest line (⟨t, line⟩ :: acc) := by
+  cases h with
+  | ident c a hc ha => exact lex_ident c a rest hc ha hs f line acc
+  | num c ip' fp ep hc hip hf he =>
+    have := lex_num c ip' fp ep rest hc hip hf he hs f line acc
+    simpa [List.append_assoc] using this
+  | snum sg ip fp ep hsg hne hip hf he =>
+    have := lex_snum sg ip fp ep rest hsg hne hip hf he hs f line acc
+    simpa [List.append_assoc] using this
+  | str body hb =>
+    have := lex_str body rest hb f line acc
+    simpa [List.append_assoc] using this
+  | sym c hc => exact lex_sym c rest hc hs f line acc
+
+/-- `Render ts line cs`: `cs` is a printing of the tokens `ts` that starts on line `line` -/
+inductive Render : List LTok → Nat → List Char → Prop
+  | nil (ig : List Char) (n line : Nat) : Ign ig n → Render [] line ig
+  | comment (ig : List Char) (n : Nat) (body : List Char) (line : Nat) : Ign ig n →
+      body.all (· != '\n') = true → Render [] line (ig ++ '/' :: '/' :: body)
+  | cons (ig : List Char) (n : Nat) (t : Tok) (txt rest : List Char) (ts : List LTok) (line : Nat) :
+      Ign ig n → TokText t txt → TokSep t rest → Render ts (line + n) rest →
+      Render (⟨t, line + n⟩ :: ts) line (ig ++ (txt ++ rest))
+
+theorem lexAux_render (ts : List LTok) (line : Nat) (cs : List Char) (h : Render ts line cs) :
+    ∀ (acc : List LTok) (f : Nat), cs.length + 1 ≤ f → lexAux f cs line acc = .ok (acc.reverse ++ ts) := by
+  induction h with
+  | nil ig n line hig =>
+    intro acc f hf
+    obtain ⟨f', hk, he⟩ := lex_ign ig n hig [] line acc 1 f hf
+    obtain ⟨f'', rfl⟩ : ∃ f'', f' = f'' + 1 := ⟨f' - 1, by omega⟩
+    simp only [List.append_nil] at he
+    rw [he]; simp [lexAux]
+  | comment ig n body line hig hb =>
+    intro acc f hf
+    obtain ⟨f', hk, he⟩ := lex_ign ig n hig ('/' :: '/' :: body) line acc 2 f (by simp at hf; omega)
+    obtain ⟨f'', rfl⟩ : ∃ f'', f' = f'' + 2 := ⟨f' - 2, by omega⟩
+    rw [he]
+    have htw : takeWhile (· != '\n') body = (body, []) := by
+      have := takeWhile_append (· != '\n') body [] hb rfl
+      simpa using this
+    simp [lexAux, htw]
+  | cons ig n t txt rest ts line hig htxt hsep _ ih =>
+    intro acc f hf
+    have hl := htxt.length_pos
+    obtain ⟨f', hk, he⟩ := lex_ign ig n hig (txt ++ rest) line acc (txt.length + rest.length + 1) f
+      (by simp at hf; omega)
+    obtain ⟨f'', rfl⟩ : ∃ f'', f' = f'' + 1 := ⟨f' - 1, by omega⟩
+    rw [he, lex_tok t txt htxt rest hsep f'' (line + n) acc, ih _ f'' (by omega)]
+    simp
+
+/-- **the lexer inverts printing**: every printing of a token list, with any ignorables between
+the tokens, lexes back to exactly that list (tokens and the lines they start on) -/
+theorem lex_render (ts : List LTok) (cs : List Char) (h : Render ts 1 cs) :
+    lex (String.ofList cs) = .ok ts := by
+  have := lexAux_render ts 1 cs h [] (cs.length + 1) (Nat.le_refl _)
+  simpa [lex] using this
+
 end Fcp.Syntax
